@@ -344,9 +344,9 @@ func fnCommandList(ctx *cmdContext, args map[string]any) (output respValue, err 
 
 func fnSort(ctx *cmdContext, args map[string]any) (output respValue, err error) {
 	sourceKeyName := args["key"].(string)
-	byPattern, _ := args["by"].(string)
-	offset_count, hasOffset := args["offset_count"].(*orderedMap)
-	getPatternsAny, _ := args["get"].([]any)
+	byPattern, _ := args["by-pattern"].(string)
+	offset_count, hasOffset := args["limit"].(*orderedMap)
+	getPatternsAny, _ := args["get-pattern"].([]any)
 	_, isDesc := args["order.desc"]
 	_, isAlpha := args["sorting"] // this name may be a redis bug
 	destKeyName, _ := args["destination"].(string)
@@ -361,10 +361,12 @@ func fnSort(ctx *cmdContext, args map[string]any) (output respValue, err error) 
 		count = int(count64)
 	}
 
+	// GET p1 GET p2 arrives as p1, "GET", p2: the patterns are at the even positions
 	getPatterns := make([]string, 0, len(getPatternsAny))
-	for _, getPattern := range getPatternsAny {
-		str := getPattern.(string)
-		getPatterns = append(getPatterns, str)
+	for idx, getPattern := range getPatternsAny {
+		if idx%2 == 0 {
+			getPatterns = append(getPatterns, getPattern.(string))
+		}
 	}
 
 	output = ctx.dsc.sort(sourceKeyName, byPattern, destKeyName, start, count, getPatterns, hasOffset, isDesc, isAlpha)
